@@ -2,6 +2,7 @@ import MythVerif.Proofs.DagRecSpan
 import MythVerif.Proofs.DagRecCount
 import MythVerif.Proofs.DagRecStat
 import MythVerif.Proofs.DagRecPathMain
+import MythVerif.Proofs.DagRecPathCount
 /-!
 # C18 — DAG Recorder totals do not depend on how the DAG was contracted
 
@@ -132,6 +133,13 @@ theorem C18_span_is_longest_path_any_policy (v : Variant) (pol : Policy) (hpol :
   have e := C18_policy_independent v pol (summarize v {}) hpol (admissible_summarize v {}) t (rootCursor sc)
   rw [e]
   exact C18_span_is_longest_path v {} sc t h
+
+/-- the dependency graph is the graph whose edges the recorder counts: it has exactly as many
+    edges of each of the five kinds as the root reports in `logical_edge_counts` (current source) -/
+theorem C18_dep_edge_counts (o : Opts) (sc : Nat) (t : Tree) (h : wnTask t = true) :
+    edgeCounts (depGraph t).edges = (record .fixed o sc t).info.c.ec := by
+  rw [(C18_counts_exact o sc t h).2]
+  exact edgeCounts_task t h
 
 /-- the critical path never exceeds the work (any tree, any stamps) -/
 theorem C18_span_le_work (v : Variant) (o : Opts) (sc : Nat) (t : Tree) :
